@@ -63,6 +63,10 @@ def build(chk):
     from .C18_interpolation import c_interpolate, c_modes
     c_interpolate(chk)
     c_modes(chk)
+    c_eos(chk)
+
+
+def c_eos(chk):
     chk.assume_note(FREE_ENERGY_ASSUMPTION)
     chk.assume_note("pow(b, e) with symbolic exponent: only b**(e+k) = b**e * b**k (k integer literal) and b>0 => b**e>0 are used")
     all_sums = {}
